@@ -74,7 +74,45 @@ func gen(t *rapid.T) Case {
 	ox := rapid.SampledFrom([]float64{0, 0, 1000, -50}).Draw(t, "ox")
 	A := vkit.GenPolygonal(t, ka, ox, ox/2, R, snap)
 	c.A = A.G
-	c.Config = rapid.SampledFrom([]string{"overlap", "overlap", "overlap", "nested", "inhole", "diagonal", "bboxdisjoint", "far", "sliver", "sliver", "speck"}).Draw(t, "config")
+	c.Config = rapid.SampledFrom([]string{"overlap", "overlap", "overlap", "nested", "inhole", "diagonal", "bboxdisjoint", "far", "sliver", "sliver", "speck", "island"}).Draw(t, "config")
+	if f := os.Getenv("VERIF_C01_FORCECFG"); f != "" { // generator experiments only
+		c.Config = f
+	}
+	if c.Config == "island" {
+		// a lake with an island: one operand is a multi-polygon of a polygon with a round hole (10-20 vertices, so that the
+		// hole's outline keeps well away from the middle of the lake), a second polygon inside that hole, and sometimes a
+		// third one far away, stored in any order; the other operand is small, lies in the lake clear of its shore and
+		// reaches over the island. Either may be the receiver.
+		ring := func(n int, r, jit float64, lbl string) []vkit.P2 {
+			out := make([]vkit.P2, n)
+			ph := rapid.Float64Range(0, 2*math.Pi).Draw(t, lbl+"ph")
+			for i := range out {
+				rr := r * (1 + jit*rapid.Float64Range(-1, 1).Draw(t, lbl+"j"))
+				a := ph + 2*math.Pi*float64(i)/float64(n)
+				out[i] = vkit.MkP(ox+rr*math.Cos(a), ox/2+rr*math.Sin(a))
+			}
+			return out
+		}
+		shell := ring(rapid.IntRange(6, 14).Draw(t, "ishelln"), R, 0.08, "ishell")
+		lake := ring(rapid.IntRange(10, 20).Draw(t, "ilaken"), 0.5*R, 0.04, "ilake")
+		X := [][]vkit.P2{vkit.Respell(t, shell), vkit.Respell(t, lake)}
+		Y := vkit.GenPolygonal(t, "Polygon", ox, ox/2, R*rapid.Float64Range(0.1, 0.2).Draw(t, "iisland"), false).G.Rings
+		members := [][][]vkit.P2{X, Y}
+		if rapid.IntRange(0, 2).Draw(t, "ithird") == 0 {
+			members = append(members, vkit.GenPolygonal(t, "Polygon", ox+3*R, ox/2, R*0.5, false).G.Rings)
+		}
+		members = rapid.Permutation(members).Draw(t, "iorder")
+		c.A = vkit.GJ{T: "MultiPolygon", Polys: members}
+		kb2 := rapid.SampledFrom([]string{"Bounds", "Bounds", "Polygon", "MultiPolygon"}).Draw(t, "ikb")
+		c.B = vkit.GenPolygonal(t, kb2, ox+R*rapid.Float64Range(-0.1, 0.1).Draw(t, "idx"), ox/2+R*rapid.Float64Range(-0.1, 0.1).Draw(t, "idy"), R*rapid.Float64Range(0.06, 0.15).Draw(t, "irb"), false).G
+		if kb2 == "MultiPolygon" && len(c.B.Polys) > 1 {
+			c.B.Polys = c.B.Polys[:1] // further members would be laid out to the right, across the shore
+		}
+		if rapid.Bool().Draw(t, "iswap") {
+			c.A, c.B = c.B, c.A
+		}
+		return c
+	}
 	if c.Config == "sliver" {
 		// a long thin hole (a canal) through the middle of A, and a box (or small polygon) laid across it: the corners of B
 		// are inside A, no vertex of A is inside B, yet A's boundary passes through B
@@ -112,6 +150,7 @@ func gen(t *rapid.T) Case {
 	}
 	ang := rapid.Float64Range(0, 2*math.Pi).Draw(t, "ang")
 	var bx, by, RB float64
+	swapAB := false
 	switch c.Config {
 	case "overlap":
 		d := R * rapid.Float64Range(0, 1.3).Draw(t, "d")
@@ -127,6 +166,20 @@ func gen(t *rapid.T) Case {
 			bx, by = h[0], h[1]
 			RB = h[2] * 0.5 * rapid.Float64Range(0.2, 0.6).Draw(t, "RB") // hole radii >= 0.5*h[2]; gaps<pi keep an inscribed disc
 			RB *= 0.3
+			if A.G.T == "MultiPolygon" && rapid.Bool().Draw(t, "island") {
+				// an island in the lake: one more member of A lies inside the hole (stored before or after the member whose
+				// hole it is), and B - still clear of the hole's outline - reaches over it
+				ri := 0.5 * h[2]
+				Y := vkit.GenPolygonal(t, "Polygon", h[0], h[1], ri*rapid.Float64Range(0.25, 0.45).Draw(t, "islandr"), snap)
+				polys := append([][][]vkit.P2{}, A.G.Polys...)
+				pos := rapid.IntRange(0, len(polys)).Draw(t, "islandpos")
+				polys = append(polys[:pos], append([][][]vkit.P2{Y.G.Rings}, polys[pos:]...)...)
+				A.G.Polys = polys
+				c.A = A.G
+				bx, by = h[0]+ri*rapid.Float64Range(-0.2, 0.2).Draw(t, "islanddx"), h[1]+ri*rapid.Float64Range(-0.2, 0.2).Draw(t, "islanddy")
+				RB = ri * rapid.Float64Range(0.15, 0.35).Draw(t, "islandrb")
+				swapAB = rapid.Bool().Draw(t, "islandswap") // the operand in the lake as the receiver
+			}
 		} else {
 			bx, by = A.Cx, A.Cy
 			RB = A.Rin * 0.3
@@ -193,6 +246,9 @@ func gen(t *rapid.T) Case {
 		c.ScaleExp = rapid.IntRange(-1040, 900).Draw(t, "boxscaleexp")
 	} else if rapid.IntRange(0, 2).Draw(t, "scaled") == 1 {
 		c.ScaleExp = rapid.OneOf(rapid.IntRange(-10, 40), rapid.IntRange(-10, 40), rapid.IntRange(-10, 40), rapid.IntRange(-60, -10), rapid.IntRange(-200, 200)).Draw(t, "scale_exp")
+	}
+	if swapAB && c.EmptyA == "" && c.EmptyB == "" {
+		c.A, c.B = c.B, c.A
 	}
 	if f := os.Getenv("VERIF_C01_FORCEK"); f != "" { // threshold experiments only (DESIGN.md section 5, tiny_absolute_extent)
 		c.ScaleExp, _ = strconv.Atoi(f)
@@ -356,8 +412,7 @@ func validOperand(polys [][][]vkit.P2, margin float64) bool {
 			}
 		}
 	}
-	// nesting, independent of how the rings are grouped and ordered: every ring is either inside no other ring (a shell)
-	// or inside exactly one other ring, which is a shell (a hole of that shell)
+	// nesting, independent of how the rings are grouped and ordered
 	var rings [][]vkit.P2
 	for _, p := range polys {
 		rings = append(rings, p...)
@@ -376,9 +431,14 @@ func validOperand(polys [][][]vkit.P2, margin float64) bool {
 			}
 		}
 	}
+	// (rings that keep clear of each other nest like a tree: a ring inside an even number of others is a shell, inside an
+	// odd number a hole - an island in a lake is inside two. What is excluded is a ring inside another one at the same
+	// parity without anything in between, which the tree shape rules out by itself.)
 	for i := range rings {
-		if len(inside[i]) > 1 || (len(inside[i]) == 1 && len(inside[inside[i][0]]) != 0) {
-			return false
+		for _, j := range inside[i] {
+			if len(inside[j]) >= len(inside[i]) {
+				return false
+			}
 		}
 	}
 	return true
